@@ -90,25 +90,41 @@ Fixpoint ae_lookup (t : list ae_entry) (k iv e : list byte) : list byte :=
       if bytes_eqb k (hx k') && bytes_eqb iv (hx iv') && bytes_eqb e (hx e') then hx o else ae_lookup r k iv e
   end.
 
-Definition mk_skey (t : bool * bool * string) : skey :=
-  match t with (bi, inv, kb) => {| k_bidi := bi; k_inverse := inv; k_bytes := hx kb |} end.
+(* the keys the engine provisions (generated from a fixed seed, independent of VERIF_SEED); cases refer to them
+   by index, and the KKeyTab case checks on every run that the engine still uses exactly these *)
+Definition key_tab : list (list byte) := map hx ([
+  "d7b4a45941466bff31bce7fd03fe6dc72b4d6d853f6f2ec0c28ff64eaaa762b6607147113c95edd91bd194b27a5a929a8582a99ba2b8bd31e1e507b7e6811d50b122a81edff7775b58fdfd671dc6a37cc8e72813f2069ee5e657463be123b07f0a1956d50cd2abb292b10762f470dfab44a0cbe36031477edc3230231f754ac71f608017efe191e92ec3d4ea5e78b79731995275ef5b5610573c71bedca99e44739f68600c712a714108f716908adc8944160349fb5989f1f193c30946a05ec33963acd058a6a8cd8768123f5bdef2131268adadc85099ae5b95d305586a52d3a3b579baee03a0aed95c305b6a4bf3069253e78338c28a9a576ccbdcb65389da";
+  "b92b86e427525844d7d7e06438ee3a7e1957b50d33163e45c620e6c5e04c056be21b2e03687f0f4c1250a31d26664cfd580c54f1828a4429a01824054a968c21bef5420b85759911264e92df7d69a37b73990ecea39bf0f362b03b7cbc695c8dea581a0c39675aa265c62c6d703a3bace476eba65c9914dddd5f0efd6f795e5c";
+  "c2667d69bf82b1d1740fef6b21b209e1ad82baaf667006666a218de08c824c9dab55d5fecde0472d276b8c25667510ce882e26b20118bd6bde62de4ab94c49146aa2a814ac69f7e44f5ae0db0792c54dc76b9ed93d8557a31acf28ae9bd83535cd294c25ce1e6ef7cd22def24cdab195de55ce1940d4c57e8052f9f02bfb9620d401f3f25490716ea3cfb470a4a65c8a3325f2d981c777d406f7c65198fde67692689e66a0e7b732f96514515199a92888e2e738a3f2d28d16b85f82cfbee7a7cc77e61ec86c6621e8e16bce1f1e3d461b72ff367a0de650df83916d262fcad7ae23bb52991b8a37d73d7572411a00f485910d0dc1220dd1504a526d335a4cb6";
+  "195759f2c1057f65805f07503e78ae48875b40eb9b77ae97d8d8efaaeabac4d4c66993ef2e2babd3818459f34746b6a3fe1f0dd2b5dbf6360acbf1661de08abaa1798d4fb882906e721785c24d67405a02424fa4c613278e44e133e24293df82b808b971304980789bc6ab0666db840b1c6ded5f4ba4306dfb37df454b337f769d5a3153629589fbd82af3aeab13dacdfbc4e08adc358bdcc8e8152bb113ccc41785999a60ee4fa795fbab7117901ac060c53e0783e337b5cb992529524681af8253b29fa84366eb0b12c27aec0bea276bd2fb5692c3f5d1ca088ff8a771ae43745ff5b5587d04ea0ab283e6675fff3e34990c07772c061d6fe5c1337503a8b04fa794e116e890e6381a2ad6a1b5e9bca909065503f910096d8b985576da7a110122";
+  "3504285972d915ca1183058215f9f59da8e1fb430bd8d445588ac700cd37283a55fe934657eb868c3504c6b4a991d2d9a3f71b14bd0c0598ca3c125c6fa70e1816dcbbada5c059e3a8e09825663930980440fa975a84e772f8a506c86ba2553563f859ca924eb64c4784d50735a0883273c424109b168ec2530d9f518d02fa8422d6a52c91261c31b1eaa8223a7ead919ccb36a9209b4732689af5dffa40513f40a6383bc3d93ed11b0ef43cecec61cefdda8355362cab1a78cdf389d7a0674f4b73dae015ed0047b979a17a91f1f963a3897c929dc55cc730ab96b5c3884577029569203965115036e6429d239aae18830f89200521d7f72cd91e066efc7426";
+  "c1bc7cf1d82fa33d8ef238bf41a22137d0328a15ca25ea1f35f94dd3567c20ef56173782e5a1d459981aaf7b34acba0e827d0ecf704c021214fb24de7c26a69676332a9c3c20fdd9c00a711d0ab40d5a553cfe9d0918020c967d37bd6cca70092440ad26e6d983f1ef37e3f85340a19cd5d98fa61374f6016c5c636d4f84bb23a400450d1f7f0b4ababe25d2daa51eb7d27fb483102c2fd7839541a77468f46285ab75d09fc670d46a0a4de1e3b5f7426d51a154d63c553b3f6a5d0174909d2a676a12b702b15e14be410babc5b4c5675ba52c1e23b923cd237b23c198cceb83d5d254b63b20aa7ff275389f0a1c9548eadc752147fa1c92d9fd0979f4dbc791ecdf41d04665beac5875d91e86cc94ad8368735d318fd64d2a417f7e51ea2edba1c6182db13872f3ed012b";
+  "ee38cf0fc2e91bff52b0d8b5e1ccc069d45e536ffab5f0a5f25333119773e73ebb0cb0289536983321ae354916347a3b2a17e993449bf769bf507555df70c24de7538ce45bbf361a35bf20e1e9d635a77a8926f1a0ddd77e2ece9815842e6135a4ae2bc603c46b26fc958b3c3b3cee44974485d2a86dfcc7db097ad2d311195c50a58eb4d1d9ece54f58b27974fddee4f056436d1637fe6271179d2e289941b68f373cf2672323a6258e5b3fd0ff213820ca3bc48738f38fd70aaed7b4c29d2a6ae0631a9127bff051162e797ae9b0e78dee87c459c03e75bd67d3a7992d7a583069fcba3cc44692b3f8c426a8bc971755839819b17cfa553c19960ffce18c18";
+  "c1efdcbec233ab3a2994c03f5d6c544569592bc2948a68fb44d46612659d3175f10f354b4737c3173691dc86fdb596f23ca3f00e9d34825eedb1626f4fdfba28c56c23d41ee9bd543f17d8763decd601002673e31cc769031db1ff835e247b9b6f129dab9b374c3f618f68add5ff54905f6ed9fb2d4c6d20d758e36cf91f413dc04f5d1480b04f7a2e3b16c94e6011d2c86f03f8ff10e6f856db8d08b89fc56262a92cf513432dd6d2a7ce87959705b0fd8d3625e162fe41facd88ce1864ac5862deba555b9f0f86e40f71f05d43ee4e984394b3d29ff6fa815cd06c16d474ab74a0fed7b979669286803b1dfa0ffbdfa131e173fd818cf5e414d4889cfa7d2dd7b10988f1aafbb6d370d59e19e3eb469d5d7e19d7046dafa9c8ceefa42a9d57f1b01a86692b4c0129"]%string).
+Definition key_at (z : Z) : list byte := nth (znat z) key_tab [].
+
+Definition mk_skey (t : bool * bool * list byte) : skey :=
+  match t with (bi, inv, kb) => {| k_bidi := bi; k_inverse := inv; k_bytes := kb |} end.
 Definition optz (z : Z) : option nat := if z <? 0 then None else Some (znat z).
 Definition zopt (o : option nat) : Z := match o with Some n => Z.of_nat n | None => -1 end.
 
-(* OC modes(plain auth crypt crypt2) ignore_crypto ignore_timestamp groupkey(bidi,inverse,bytes) auth_digest
-      client_keys(static, hmac, enc) server_key *)
-Inductive ocfg := OC (pl au cr c2 igc igt : bool) (gk : option (bool * bool * string)) (ad : Z)
-                     (cks : list (string * string * string)) (sk : option string).
+(* OC modes(plain auth crypt crypt2) ignore_crypto ignore_timestamp groupkey(bidi,inverse,key index) auth_digest
+      client_keys(static key index, wrapped key index) server_key index *)
+Inductive ocfg := OC (pl au cr c2 igc igt : bool) (gk : option (bool * bool * Z)) (ad : Z)
+                     (cks : list (Z * Z)) (sk : option Z).
+Definition mk_ck (t : Z * Z) : ckey :=
+  let w := key_at (snd t) in
+  {| ck_static := mk_skey (false, false, key_at (fst t));
+     ck_wk := {| w_hmac := firstn crypt_hmac w; w_enc := firstn (List.length w - crypt_hmac - sz_len) (skipn crypt_hmac w) |} |}.
 Definition mk_cfg (o : ocfg) : cfg :=
   match o with
   | OC pl au cr c2 igc igt gk ad cks sk =>
       {| acc_plain := pl; acc_auth := au; acc_crypt := cr; acc_crypt2 := c2; ign_crypto := igc; ign_ts := igt;
-         gk_auth := option_map mk_skey gk;
-         gk_crypt := option_map (fun t => match t with (_, _, kb) => mk_skey (false, false, kb) end) gk;
+         gk_auth := option_map (fun t => match t with (bi, inv, k) => mk_skey (bi, inv, key_at k) end) gk;
+         gk_crypt := option_map (fun t => match t with (_, _, k) => mk_skey (false, false, key_at k) end) gk;
          auth_digest := optz ad;
-         client_keys := map (fun t => match t with (st, hm, en) =>
-                                {| ck_static := mk_skey (false, false, st); ck_wk := {| w_hmac := hx hm; w_enc := hx en |} |} end) cks;
-         server_key := option_map (fun kb => mk_skey (false, false, kb)) sk |}
+         client_keys := map mk_ck cks;
+         server_key := option_map (fun k => mk_skey (false, false, key_at k)) sk |}
   end.
 
 Definition vcode (v : verdict) : Z := match v with Yes => 0 | No => 1 | More => 2 | Fail => 3 | Panic => 4 end.
@@ -148,6 +164,7 @@ Inductive ocase :=
 (* MatchOpenVPN.Match *)
 | KMatch (c : ocfg) (ld : Z) (tcp : bool) (now : Z) (hm : list hm_entry) (ae : list ae_entry) (input : string) (obs : Z) (ld' : Z)
 (* key selectors of crypto.go: which (0 client auth, 1 client encrypt, 2 client decrypt, 3 server auth), size, result (None = panic) *)
+| KKeyTab (ks : list string)
 | KKey (k : bool * bool * string) (which : Z) (size : Z) (obs : option string)
 (* MatchDNS.Match: [mb] is the message buffer handed to Unpack and [u] what it returned *)
 | KDns (al dn : list drule) (dd pa : bool) (tcp : bool) (input : string) (mb : string) (u : dunpack) (re : list re_entry) (obs : Z)
@@ -210,8 +227,9 @@ Definition check (c : ocase) : bool :=
   | KMatch oc ld tcp now hm ae input obs ld' =>
       let '(v, l') := ovpn_match (hm_lookup hm) (ae_lookup ae) now (mk_cfg oc) (optz ld) tcp (hx input) in
       (vcode v =? obs) && (zopt l' =? ld')
+  | KKeyTab ks => blobs_eqb key_tab ks
   | KKey k which size obs =>
-      let sk := mk_skey k in
+      let sk := mk_skey (match k with (bi, inv, kb) => (bi, inv, hx kb) end) in
       let r := match which with
                | 0 => client_auth_key sk (znat size)
                | 1 => client_encrypt_key sk (znat size)
